@@ -25,6 +25,9 @@ REQ_CUR = [
     # duplicate / late replies after the reply was consumed (the request id must have been retired)
     ("A(0) S(0,0,1) T(0,1) Y(0,0) R(0,1,0) Y(0,0) R(0,2,0) Z", 0), ("A(0) S(0,0,1) R(0,1,1) T(0,1) Y(0,0) Y(0,0) R(0,2,0) Z", 0),
     ("A(0) S(0,0,1) T(0,1) Y(0,0) R(0,1,0) S(0,2,1) T(0,1) Y(0,5) R(0,3,0) Z", 0), ("A(0) S(0,0,1) T(0,1) Y(0,0) R(0,1,0) S(0,2,1) T(0,1) Y(0,5) Y(0,0) R(0,3,0) Z", 0), ("S(0,0,1) S(1,1,1) A(0) T(0,1) T(0,1) Y(0,1) R(1,3,0)", 1),
+    # a request abandoned BEFORE it was ever transmitted (cancelled / superseded while no peer was connected): its id must be retired too -
+    # a later unsolicited reply carrying it answers nothing
+    ("S(0,0,1) X(0) A(0) S(0,1,1) T(0,1) R(0,2,1) Y(0,5) Z", 0), ("S(0,0,1) S(0,1,1) A(0) T(0,1) R(0,2,1) Y(0,5) Z", 0), ("S(0,0,1) R(0,1,1) X(1) A(0) S(0,2,1) T(0,1) Y(0,5) R(0,3,0) Z", 0),
     # the resend timer exactly at / just after its deadline, with the first copy still unanswered on a live connection
     ("A(0) S(0,0,1) T(0,1) K(60000) T(0,1) Z", 0), ("A(0) S(0,0,1) T(0,1) K(60001) K(60000) Z", 0), ("A(0) S(0,0,1) K(60000) T(0,1) K(60000) Z", 0),
     # close / teardown with several operations pending on the same context (request not yet sent because no peer, and a receive waiting)
